@@ -293,6 +293,9 @@ type servers struct {
 	metrics *metricsListener
 	all     []dnsserver.Server
 
+	// disposer is given every response a server has finished with.
+	disposer *scribblingDisposer
+
 	// dcCert is the certificate of the DNSCrypt server, which a client
 	// normally fetches with a plain TXT query.
 	dcCert     *dnscrypt.Cert
@@ -314,7 +317,7 @@ type serverOpts struct {
 }
 
 func startServers(s *kernel.Sim, n *simnet.Net, p *pipeline, o serverOpts) (sv *servers) {
-	sv = &servers{n: n, p: p, metrics: &metricsListener{s: s}}
+	sv = &servers{n: n, p: p, metrics: &metricsListener{s: s}, disposer: &scribblingDisposer{seen: map[*dns.Msg]bool{}}}
 	base := func(name, addr string) dnsserver.ConfigBase {
 		cb := dnsserver.ConfigBase{
 			Name:         name,
@@ -322,6 +325,7 @@ func startServers(s *kernel.Sim, n *simnet.Net, p *pipeline, o serverOpts) (sv *
 			Handler:      p,
 			Metrics:      sv.metrics,
 			ListenConfig: n,
+			Disposer:     sv.disposer,
 		}
 		if o.reqTimeout > 0 {
 			cb.RequestContext = dnsserver.NewTimeoutContextConstructor(o.reqTimeout)
@@ -565,5 +569,42 @@ func h3Transport(n *simnet.Net, ip netip.Addr, sni string) (rt *http3.Transport,
 		_ = rt.Close()
 		_ = qt.Close()
 		_ = pc.Close()
+	}
+}
+
+
+// scribblingDisposer is the servers' disposer: a response handed to it is the
+// disposer's to reuse, so it overwrites it at once; a server that still uses
+// the message afterwards sends the client nonsense.  It also notes a message
+// handed over twice (messages are kept alive, so that an address cannot come
+// back for another message).
+type scribblingDisposer struct {
+	mu    sync.Mutex
+	seen  map[*dns.Msg]bool
+	twice int
+}
+
+// Dispose implements the dnsserver.Disposer interface.
+func (d *scribblingDisposer) Dispose(resp *dns.Msg) {
+	if resp == nil {
+		return
+	}
+	d.mu.Lock()
+	if d.seen[resp] {
+		d.twice++
+	}
+	d.seen[resp] = true
+	d.mu.Unlock()
+
+	for _, sec := range [][]dns.RR{resp.Answer, resp.Ns, resp.Extra} {
+		for i := range sec {
+			sec[i] = nil
+		}
+	}
+	resp.Answer, resp.Ns, resp.Extra = nil, nil, nil
+	resp.Rcode = dns.RcodeBadCookie
+	resp.Id ^= 0x5555
+	for i := range resp.Question {
+		resp.Question[i].Name = "released.invalid."
 	}
 }
